@@ -28,10 +28,17 @@ def plan_total(key):
 def _viol(p):
     t = p["tags"]
     o = p["outcome"]
+    if "expect-accept" in t or "expect-reject" in t:
+        # CL03 probes: a panic of a verifier / issuer is a refusal; edits of fields no verifier reads are not edits of the statement
+        if "unused-field" in t:
+            return False
+        return ("expect-accept" in t and o != "accept") or ("expect-reject" in t and o == "accept")
     return o.startswith("panic:") or ("expect-ok" in t and not o.startswith("ok:")) or ("expect-err" in t and o.startswith("ok:"))
 
 
 PREFIX_FAMILIES = [
+    ("C13.", ["cl_sig"]), ("C14.", ["cl_issue"]), ("C15.", ["cl_spok"]), ("C16.", ["cl_range"]), ("C17.", ["cl_wire"]),
+    ("C18.", ["cl_keys", "cl_sig"]), ("C19.", ["cl_mask"]),
     ("C01.core_verify", ["sig_complete", "sig_binding"]), ("C01.verify", ["sig_complete", "sig_binding"]), ("C01.", ["sig_complete"]),
     ("C02.", ["sig_binding"]), ("C10.core_sign", ["sig_complete"]), ("C10.sign", ["sig_complete"]),
     ("C03.", ["proof_complete"]), ("C04.proof_verify", ["proof_sound", "proof_complete", "forgery"]), ("C04.", ["proof_sound", "forgery"]),
